@@ -240,6 +240,29 @@ def rule_iter_any(text, ctx, where):
     return text, n
 
 
+def rule_iter_find_map_fn(text, ctx, where):
+    """`X.iter().find_map(|PAT| BODY)` -> index loop with early exit: the first `Some` that BODY yields, elements visited in order, `None` when
+    there is none (std's `Iterator::find_map` on a slice iterator, assumed semantics)"""
+    n = 0
+    while True:
+        m = mask(text)
+        mt = re.search(r"\s*\.iter\(\)\s*\.find_map\(", m)
+        if not mt:
+            break
+        dot = m.index(".", mt.start())
+        s0 = _receiver_start(m, dot if mt.start() == dot else mt.start())
+        recv = text[s0:mt.start()].strip()
+        b = mt.end() - 1
+        e = match_delim(m, b)
+        pat, body = _split_closure(text[b + 1:e])
+        i, r = f"__fmi{n}", f"__fmr{n}"
+        rep = (f"({{ let mut {i}: usize = 0; let mut {r} = None; "
+               f"while {i} < {recv}.len() {{ let {pat} = &{recv}[{i}]; let __fmv = {body}; if __fmv.is_some() {{ {r} = __fmv; break; }} {i} += 1; }} {r} }})")
+        text = text[:s0] + rep + text[e + 1:]
+        n += 1
+    return text, n
+
+
 def rule_iter_all(text, ctx, where):
     """`X.iter().all(F)`  ->  index loop with early exit (std's `Iterator::all` on a slice iterator, assumed semantics:
     true iff F holds for every element, elements visited in order, stops at the first failure)"""
@@ -917,7 +940,7 @@ def rule_mem_take(text, ctx, where):
     return re.subn(r"\b(?:std::|core::)?mem::take\(\s*&mut\s+", "vec_take(&mut ", text)
 
 
-RULES = {"map_err_plain": rule_map_err_plain, "opt_is_some_and": rule_opt_is_some_and, "mem_take": rule_mem_take, "box_as_ref": rule_box_as_ref, "vec_retain": rule_vec_retain, "str_methods": rule_str_methods, "opt_and_then": rule_opt_and_then, "let_chain_rev": rule_let_chain_rev, "iter_find_map": rule_iter_find_map, "iter_rfind_map": rule_iter_rfind_map, "iter_all": rule_iter_all, "let_chain": rule_let_chain, "entry_or_insert_with": rule_entry_or_insert_with, "for_into_iter": rule_for_into_iter, "iter_map_collect": rule_iter_map_collect, "ok_or_else_q": rule_ok_or_else_q, "for_zip": rule_for_zip, "msg_to_string": rule_msg_to_string, "for_consume": rule_for_consume, "for_entries": rule_for_entries, "opt_map": rule_opt_map, "opt_or_else": rule_opt_or_else, "closure_inline": rule_closure_inline, "unreachable_partial": rule_unreachable_partial, "assert_partial": rule_assert_partial, "for_index": rule_for_index, "map_err_q": rule_map_err_q, "iter_any": rule_iter_any, "opt_map_or": rule_opt_map_or, "mutself": rule_mutself, "fmtmsg": rule_fmtmsg, "pubfields": rule_pubfields, "T": rule_T, "attrs": rule_attrs, "cell": rule_cell}
+RULES = {"iter_find_map_fn": rule_iter_find_map_fn, "map_err_plain": rule_map_err_plain, "opt_is_some_and": rule_opt_is_some_and, "mem_take": rule_mem_take, "box_as_ref": rule_box_as_ref, "vec_retain": rule_vec_retain, "str_methods": rule_str_methods, "opt_and_then": rule_opt_and_then, "let_chain_rev": rule_let_chain_rev, "iter_find_map": rule_iter_find_map, "iter_rfind_map": rule_iter_rfind_map, "iter_all": rule_iter_all, "let_chain": rule_let_chain, "entry_or_insert_with": rule_entry_or_insert_with, "for_into_iter": rule_for_into_iter, "iter_map_collect": rule_iter_map_collect, "ok_or_else_q": rule_ok_or_else_q, "for_zip": rule_for_zip, "msg_to_string": rule_msg_to_string, "for_consume": rule_for_consume, "for_entries": rule_for_entries, "opt_map": rule_opt_map, "opt_or_else": rule_opt_or_else, "closure_inline": rule_closure_inline, "unreachable_partial": rule_unreachable_partial, "assert_partial": rule_assert_partial, "for_index": rule_for_index, "map_err_q": rule_map_err_q, "iter_any": rule_iter_any, "opt_map_or": rule_opt_map_or, "mutself": rule_mutself, "fmtmsg": rule_fmtmsg, "pubfields": rule_pubfields, "T": rule_T, "attrs": rule_attrs, "cell": rule_cell}
 
 
 def apply_rules(text, rules, ctx, counts, where):
